@@ -406,3 +406,27 @@ Lemma std_contain_every_inhabited :
        (B "../../..", B "file:///C:/"); (B "D|", B "file:///D:")] = true
   /\ std_every_case (B "https://u:p@h.x:8/a/b?q") [(B "/C:/x", B "https://u:p@h.x:8/C:/x"); (B "\z", B "https://u:p@h.x:8/z")] = true.
 Proof. vm_compute. repeat split. Qed.
+
+(* where the crate leaves the Standard (known finding F-C01-1 / F-C08-1, the drive-letter branches of parse_file): the
+   reference meets the Standard-side premise, the Standard keeps the host of the base, the model of Url::join drops it *)
+Definition std_file_diverge_case (base r std_href model_ser : list N) : bool :=
+  let idna := ex_idna_clean in
+  match parse_url true (host_parse idna) host_parse_opaque host_display None None base,
+        spec_basic_url_parse (spec_host_parser idna) base None with
+  | POk b, BDone sb =>
+      std_contain_pre sb (spec_clean r)
+      && match spec_basic_url_parse (spec_host_parser idna) r (Some sb),
+               parse_url true (host_parse idna) host_parse_opaque host_display None (Some b) r with
+         | BDone su, POk u' =>
+             list_eqb (get_href spec_host_serializer su) std_href && list_eqb (ser u') model_ser
+             && list_eqb (get_host spec_host_serializer su) (get_host spec_host_serializer sb)
+             && negb (list_eqb std_href model_ser)
+         | _, _ => false
+         end
+  | _, _ => false
+  end.
+
+Lemma std_file_drive_divergence :
+  std_file_diverge_case (B "file://h.x/tmp/d") (B "C|/y") (B "file://h.x/C:/y") (B "file:///C:/y") = true
+  /\ std_file_diverge_case (B "file://h.x/tmp/d") (B "/C:/x") (B "file://h.x/C:/x") (B "file:///C:/x") = true.
+Proof. vm_compute. split; reflexivity. Qed.
